@@ -266,6 +266,29 @@ func constRangeThresholds() (minSize, maxSize string) {
 	return
 }
 
+// const_range.go: the condition of the `if` whose body patches the empty constant, and of the `if` whose body is a bare return
+func constRangeTests() (empty, skip string) {
+	f := parseFile("optimizer/const_range.go")
+	fd := funcDecl(f, "*constRange", "Exit")
+	ast.Inspect(fd.Body, func(n ast.Node) bool {
+		is, ok := n.(*ast.IfStmt)
+		if !ok || is.Init != nil {
+			return true
+		}
+		cond := strings.Join(strings.Fields(exprStr(is.Cond)), " ")
+		if len(is.Body.List) == 1 && exprStr(is.Body.List[0]) == "return" {
+			skip = cond
+		} else if len(is.Body.List) == 2 && exprStr(is.Body.List[1]) == "return" && strings.Contains(exprStr(is.Body.List[0]), "make([]int, 0)") {
+			empty = cond
+		}
+		return true
+	})
+	if empty == "" || skip == "" {
+		refuse(fd.Pos(), "const_range.go: the empty-constant test or the skip test was not found")
+	}
+	return
+}
+
 func compileStages() (stages []string, optimizeGuard string) {
 	f := parseFile("expr.go")
 	fd := funcDecl(f, "", "Compile")
@@ -560,7 +583,10 @@ func genPipeline() string {
 	fmt.Fprintf(&sb, "def constExprConvertKinds : List String := %s\n\n", leanStrList(constExprConvertKinds()))
 	mn, mx := constRangeThresholds()
 	fmt.Fprintf(&sb, "/-- const_range.go: `if size < %s` (empty constant), `if size > …` (left to the run time) -/\n", mn)
-	fmt.Fprintf(&sb, "def constRangeMinSize : Int := %s\ndef constRangeMaxSize : Int := %s\n\n", mn, mx)
+	fmt.Fprintf(&sb, "def constRangeMinSize : Int := %s\ndef constRangeMaxSize : Int := %s\n", mn, mx)
+	et, sk := constRangeTests()
+	fmt.Fprintf(&sb, "/-- the test in front of the empty constant, the test that leaves the range to the run time -/\n")
+	fmt.Fprintf(&sb, "def constRangeEmptyTest : String := %s\ndef constRangeSkipTest : String := %s\n\n", leanStr(et), leanStr(sk))
 	ops := func(file, recv, nodeType, v string) string {
 		m := operatorTests(file, recv, nodeType)
 		for k := range m {
